@@ -1,1 +1,100 @@
-fn main() {}
+//! gmverif — bounded exhaustive model checking of gm-rs against reference models.
+//!   gmverif check <Cxx> [--tier quick|thorough]
+//!   gmverif replay <file>
+//!   gmverif selftest
+mod alpha;
+mod engine;
+mod c01;
+mod c02;
+mod c07;
+mod c08;
+mod c18;
+
+use engine::*;
+use std::sync::Arc;
+
+type RunFn = fn(&Arc<Ctx>);
+
+fn registry(id: &str) -> Option<(&'static str, RunFn, ReplayFn)> {
+    Some(match id {
+        "C01" => ("C01", c01::run as RunFn, c01::replay as ReplayFn),
+        "C02" => ("C02", c02::run as RunFn, c02::replay as ReplayFn),
+        "C07" => ("C07", c07::run as RunFn, c07::replay as ReplayFn),
+        "C08" => ("C08", c08::run as RunFn, c08::replay as ReplayFn),
+        "C18" => ("C18", c18::run as RunFn, c18::replay as ReplayFn),
+        _ => return None,
+    })
+}
+
+fn main() {
+    install_panic_hook();
+    let args: Vec<String> = std::env::args().collect();
+    let seed: u64 = std::env::var("VERIF_SEED").ok().and_then(|s| s.parse().ok()).unwrap_or(0);
+    match args.get(1).map(|s| s.as_str()) {
+        Some("check") => {
+            let id = args.get(2).cloned().unwrap_or_default();
+            let mut tier = match std::env::var("VERIF_TIER").as_deref() {
+                Ok("thorough") => Tier::Thorough,
+                _ => Tier::Quick,
+            };
+            let mut i = 3;
+            while i < args.len() {
+                if args[i] == "--tier" {
+                    tier = if args.get(i + 1).map(|s| s.as_str()) == Some("thorough") { Tier::Thorough } else { Tier::Quick };
+                    i += 1;
+                } else if args[i] == "quick" {
+                    tier = Tier::Quick;
+                } else if args[i] == "thorough" {
+                    tier = Tier::Thorough;
+                }
+                i += 1;
+            }
+            let Some((pid, run, replay)) = registry(&id) else {
+                eprintln!("MACHINERY-ERROR: unknown property {}", id);
+                std::process::exit(4);
+            };
+            let ctx = Ctx::new(pid, tier, seed, false);
+            let r = guard(|| run(&ctx));
+            if let Guard::Panic(p) = r {
+                println!("MACHINERY-ERROR: check body panicked: {}", p);
+                std::process::exit(2);
+            }
+            std::process::exit(finish(&ctx, Some(replay)));
+        }
+        Some("replay") => {
+            let path = args.get(2).expect("replay file");
+            let s = std::fs::read_to_string(path).expect("read replay file");
+            let v: serde_json::Value = serde_json::from_str(&s).expect("json");
+            let id = v["property"].as_str().expect("property").to_string();
+            let rseed = v["seed"].as_u64().unwrap_or(seed);
+            let Some((pid, _run, replay)) = registry(&id) else {
+                eprintln!("MACHINERY-ERROR: unknown property {}", id);
+                std::process::exit(4);
+            };
+            let ctx = Ctx::new(pid, Tier::Quick, rseed, true);
+            replay(&ctx, &v["case"]);
+            let vs = ctx.violations();
+            if vs.is_empty() {
+                println!("REPLAY property={} : no violation reproduced", pid);
+                std::process::exit(0);
+            }
+            for w in vs {
+                println!("REPLAY property={} site={} class={} detail={}", pid, w.site, w.class, w.detail);
+            }
+            std::process::exit(1);
+        }
+        Some("selftest") => {
+            match refmodels::selftest::run(&["sm3", "sm4long", "zuc", "sm2", "sm9"]) {
+                Ok(()) => println!("reference self-tests ok"),
+                Err(e) => {
+                    println!("MACHINERY-ERROR: {}", e);
+                    std::process::exit(2);
+                }
+            }
+        }
+        _ => {
+            eprintln!("usage: gmverif check <Cxx> [--tier quick|thorough] | replay <file> | selftest");
+            std::process::exit(4);
+        }
+    }
+}
